@@ -153,7 +153,7 @@ func genSpec(rng *rand.Rand, s bgpx.Sess, focus string, size int, uid uint32) bg
 			if rng.IntN(6) == 0 {
 				t = 1
 			}
-			if n > 0 || rng.IntN(4) == 0 {
+			if n > 0 {
 				p.ASPath = append(p.ASPath, bgpx.Seg{T: t, A: asns(rng, s.AS4, n)})
 			}
 			left -= n
@@ -186,7 +186,7 @@ func genSpec(rng *rand.Rand, s bgpx.Sess, focus string, size int, uid uint32) bg
 			p.LComms[i] = [3]uint32{rng.Uint32(), rng.Uint32(), rng.Uint32()}
 		}
 	case "mixed":
-		p.ASPath = []bgpx.Seg{{T: 2, A: asns(rng, s.AS4, rng.IntN(200))}}
+		p.ASPath = []bgpx.Seg{{T: 2, A: asns(rng, s.AS4, 1+rng.IntN(200))}}
 		p.Comms = make([]uint32, rng.IntN(200))
 		for i := range p.Comms {
 			p.Comms[i] = comm(rng)
@@ -227,6 +227,15 @@ func genCase(rng *rand.Rand, i int) c17case {
 	u := gen.Universe(rng, !c.Sess.V6, 4)
 	c.Pfxs = u[:1+rng.IntN(len(u))]
 	return c
+}
+
+func attrCode(name string) uint8 {
+	for t := 0; t < 256; t++ {
+		if bgpx.AttrName(uint8(t)) == name && name != "unknown-attribute" {
+			return uint8(t)
+		}
+	}
+	return 255
 }
 
 type reporter func(clause string, f map[string]string, detail string)
@@ -277,7 +286,7 @@ func runSender(c c17case, rep reporter) (st cstat) {
 		if p := recover(); p != nil {
 			stk := make([]byte, 2500)
 			stk = stk[:runtime.Stack(stk, false)]
-			rep("panic", base("focus", c.Focus), fmt.Sprintf("panic while serialising: %v\n%s", p, stk))
+			rep("panic", vf.F("where", bgpx.PanicSite(stk)), fmt.Sprintf("%s (%s, focus %s size %d): panic while serialising: %v\n%s", s, c.Mode, c.Focus, c.Size, p, stk))
 		}
 	}()
 	u, cap := bgpx.NewSender(s)
@@ -321,6 +330,7 @@ func runSender(c c17case, rep reporter) (st cstat) {
 		return vf.F("attr", attr)
 	}
 	announced := ""
+	broken := false
 	for wi, w := range writes {
 		st.msgs++
 		if len(w) > st.maxLen {
@@ -329,6 +339,7 @@ func runSender(c c17case, rep reporter) (st cstat) {
 		typ, body, bad := bgpx.CheckFrame(w)
 		if bad != "" {
 			rep("framing", base(), bad)
+			broken = true
 			continue
 		}
 		if typ != wire.TypeUpdate {
@@ -337,12 +348,14 @@ func runSender(c c17case, rep reporter) (st cstat) {
 		}
 		last := wi == len(writes)-1
 		if cul, decl := bgpx.LengthCulprit(body, expLens); cul != "" && !last {
-			rep("attribute-length", asFeat(cul), fmt.Sprintf("%s (%s, focus %s size %d): attribute %s declares %d bytes, which no encoding of the handed content has (allowed %v); message of %d bytes", s, c.Mode, c.Focus, c.Size, cul, decl, expLens, len(w)))
+			rep("attribute-length", asFeat(cul), fmt.Sprintf("%s (%s, focus %s size %d): attribute %s declares %d bytes, which no encoding of the handed content has (allowed %v); message of %d bytes", s, c.Mode, c.Focus, c.Size, cul, decl, expLens[attrCode(cul)], len(w)))
+			broken = true
 			continue
 		}
 		up, err := wire.DecodeUpdate(body, s.WireOpts())
 		if err != nil {
 			rep("reference-decoder-rejects", asFeat(bgpx.Culprit(body, s.WireOpts(), expTypes)), fmt.Sprintf("%s (%s, focus %s size %d): the independent decoder cannot decode what bio-rd wrote (%d bytes): %v", s, c.Mode, c.Focus, c.Size, len(w), err))
+			broken = true
 			continue
 		}
 		if last {
@@ -375,7 +388,7 @@ func runSender(c c17case, rep reporter) (st cstat) {
 	}
 	if len(writes) <= 1 {
 		st.declined++ // bio-rd declined to serialise (too long): loss is C18's business
-	} else {
+	} else if !broken {
 		parts := strings.Split(announced, ",")
 		sort.Strings(parts)
 		if got, want := strings.Join(parts, ","), wantNLRIs(s, c.Pfxs, c.Path.PathID); got != want {
